@@ -364,6 +364,14 @@ func (t *tr) call(e *ast.CallExpr) (string, *ty) {
 			s, _ := t.expr(e.Args[0])
 			return s, tInt
 		}
+		if x, ok := f.X.(*ast.Ident); ok && x.Name == "bytes" && f.Sel.Name == "Equal" && len(e.Args) == 2 {
+			a, at := t.expr(e.Args[0])
+			b, bt := t.expr(e.Args[1])
+			if at.k != "bytes" || bt.k != "bytes" {
+				t.fail(e, "bytes.Equal on non-byte slices")
+			}
+			return "(bytes_eqb " + a + " " + b + ")", tBool
+		}
 		// method call
 		xs, xt := t.expr(f.X)
 		if xt.k == "opaque" && xt.name == "programMap" && f.Sel.Name == "existsUnlocked" && len(e.Args) == 1 {
@@ -1125,7 +1133,7 @@ func (t *tr) stmtsState(body []ast.Stmt, recv string) string {
 
 func (p *pkg) emitPreds() string {
 	var b strings.Builder
-	b.WriteString("(* Generated from function bodies of /repo by go/gen on every run. Do not edit.\n   Integers are Z; every operation whose Go type is uintN carries its `mod 2^N`;\n   `int`/`int64` arithmetic is unbounded (no theorem relies on signed overflow).\n   A *T parameter that the function never compares with nil is modelled as the record T. *)\nFrom Coq Require Import ZArith List Bool.\nRequire Import Gen.Consts Gen.Types Gen.CrcTable.\nImport ListNotations.\nOpen Scope Z_scope.\n\nDefinition odflt {A} (d : A) (o : option A) : A := match o with Some x => x | None => d end.\n\n")
+	b.WriteString("(* Generated from function bodies of /repo by go/gen on every run. Do not edit.\n   Integers are Z; every operation whose Go type is uintN carries its `mod 2^N`;\n   `int`/`int64` arithmetic is unbounded (no theorem relies on signed overflow).\n   A *T parameter that the function never compares with nil is modelled as the record T. *)\nFrom Coq Require Import ZArith List Bool.\nRequire Import Gen.Consts Gen.Types Gen.CrcTable.\nImport ListNotations.\nOpen Scope Z_scope.\n\nDefinition odflt {A} (d : A) (o : option A) : A := match o with Some x => x | None => d end.\n\n(* bytes.Equal *)\nFixpoint bytes_eqb (a b : list Z) : bool :=\n  match a, b with\n  | [], [] => true\n  | x :: a', y :: b' => (x =? y) && bytes_eqb a' b'\n  | _, _ => false\n  end.\n\n")
 	for _, e := range predEntries {
 		b.WriteString(p.function(e.key, false))
 		if e.state {
